@@ -2,6 +2,8 @@ import St4sd.Lemmas.C13
 import St4sd.Lemmas.C13Prod
 import St4sd.Lemmas.C13Sub
 import St4sd.Lemmas.C13Start
+import St4sd.Lemmas.C13Kill
+import St4sd.Lemmas.C13Dir
 /-!
 # C13 — A repeating observer sees its producers' final output and then stops
 
@@ -461,5 +463,155 @@ def histComposed : List COp :=
 example : let c := cexec cfgTwoStages [1, 0] histComposed
     c.eng.cause = some .success ∧ c.eng.prodDone = true ∧ c.eng.pc = .stopped ∧ c.eng.execLog.length = 2 ∧
     c.sub.notified = true ∧ c.sub.count = 1 := by decide
+
+/-! ## The kill-after-producers-done delay: armed whenever the notification arrives, stops the engine when it expires -/
+
+private theorem invK_all (cfg : Cfg) (h : List Op) : InvK cfg (exec cfg h) :=
+  run_induction (InvK cfg) (fun s op hs => invK_step cfg s op hs) h _ (invK_init cfg)
+
+/-- `notify_all_producers_finished` arms the kill-delay timer whenever a delay is configured and the engine is alive -
+after ANY history, whether or not `run()` has been called in it (`started`). -/
+theorem kill_delay_timer_armed_whether_or_not_started (cfg : Cfg) (hd : cfg.dieAfter = true) (h : List Op)
+    (hal : alive (exec cfg h) = true) : (exec cfg (h ++ [.env .fin])).armed = true := by
+  rw [exec_snoc]
+  simp [step, envStep, hd, hal]
+
+/-- … in particular when the notification PRECEDES `run()` (what `ComponentState.stageIn` does when no producer is
+alive at stage-in): after any operations of the environment and the notification the engine has not been started
+and the timer is pending. -/
+theorem notification_before_run_arms_timer (cfg : Cfg) (hd : cfg.dieAfter = true) (es : List Ev)
+    (hk : Ev.kill ∉ es) (hdie : Ev.die ∉ es) :
+    (exec cfg (envs es ++ [.env .fin])).started = false ∧ (exec cfg (envs es ++ [.env .fin])).armed = true := by
+  constructor
+  · rw [exec_snoc, env_started]
+    exact run_envs_started cfg es (init cfg)
+  · apply kill_delay_timer_armed_whether_or_not_started cfg hd
+    have hI := invB_all cfg (envs es)
+    have hc : (exec cfg (envs es)).cancel = false := by
+      have : ∀ (es : List Ev) (s : St), Ev.kill ∉ es → Ev.die ∉ es → s.cancel = false →
+          (run cfg s (envs es)).cancel = false := by
+        intro es
+        induction es with
+        | nil => intro s _ _ h; exact h
+        | cons e r ih =>
+          intro s h1 h2 h3
+          simp only [envs, List.map_cons, run] at ih ⊢
+          apply ih _ (fun hm => h1 (by simp [hm])) (fun hm => h2 (by simp [hm]))
+          cases e <;> simp_all [step, envStep]
+          split <;> simp_all
+      exact this es (init cfg) hk hdie rfl
+    simp [alive, hc]
+
+/-- In every history: once the producers are finished (and a delay is configured) the timer is pending, has expired,
+or the engine had already been cancelled - the delay is never silently dropped. -/
+theorem kill_delay_pending_or_expired_after_notification (cfg : Cfg) (hd : cfg.dieAfter = true) (h : List Op)
+    (hp : (exec cfg h).prodDone = true) :
+    (exec cfg h).armed = true ∨ (exec cfg h).suicide = true ∨ (exec cfg h).cancel = true :=
+  (invK_all cfg h).1 hd hp
+
+/-- "… or the configured kill delay expires" (partial): for every history `h` after which the timer is pending, if it
+expires now (`die`) then after ANY continuation `h2` in which the engine thread takes two more sub-steps the cancel event
+is set - whatever the tasks do: a running task that never ends by itself (`Outcome.hang`) is killed, and no launch
+follows the expiry.
+PARTIAL: the expiry must not fall between the `_suicide` check at the start of a poll and its launch (`Pc.window`):
+there the code that exists launches a task nobody will kill (`Witness.C13.kill_delay_expiring_before_launch_…`);
+when the tasks end by themselves the window does not matter (`kill_delay_expiry_stops_when_tasks_end`). -/
+theorem kill_delay_expiry_stops_partial (cfg : Cfg) (hf : Fixed cfg) (h h2 : List Op)
+    (ha : (exec cfg h).armed = true) (hw : (exec cfg h).pc.window = false) (hn : 2 ≤ engCount h2) :
+    (exec cfg (h ++ Op.env .die :: h2)).cancel = true := by
+  have hB := invB_all cfg (h ++ Op.env .die :: h2)
+  obtain ⟨he, hpc⟩ := die_expired cfg (exec cfg h) ha (invK_all cfg h).2
+  have hw' : (step cfg (exec cfg h) (.env .die)).pc.window = false := by rw [hpc]; exact hw
+  have hr := expired_run cfg hf h2 _ he hw'
+  have h2' := rank_le_two _ hw'
+  have hx : exec cfg (h ++ Op.env .die :: h2) = run cfg (step cfg (exec cfg h) (.env .die)) h2 := by
+    simp only [exec, run_append, run]
+  rw [hx] at hB ⊢
+  have hz : rank (run cfg (step cfg (exec cfg h) (.env .die)) h2) = 0 := by omega
+  rcases rank_zero _ hz with h0 | h0
+  · exact h0
+  · exact hB.2.2.2.2.2.2 (Or.inr h0)
+
+/-- … and for tasks that end by themselves, wherever the expiry falls: four sub-steps of the engine thread later the
+cancel event is set. -/
+theorem kill_delay_expiry_stops_when_tasks_end (cfg : Cfg) (hf : Fixed cfg) (h h2 : List Op)
+    (ha : (exec cfg h).armed = true) (hh : ∀ op ∈ h2, op ≠ .eng .hang) (hn : 4 ≤ engCount h2) :
+    (exec cfg (h ++ Op.env .die :: h2)).cancel = true := by
+  have hB := invB_all cfg (h ++ Op.env .die :: h2)
+  obtain ⟨he, _⟩ := die_expired cfg (exec cfg h) ha (invK_all cfg h).2
+  have hr := expired_run_ending cfg hf h2 _ he hh
+  have h4 := rank_le_four (step cfg (exec cfg h) (.env .die))
+  have hx : exec cfg (h ++ Op.env .die :: h2) = run cfg (step cfg (exec cfg h) (.env .die)) h2 := by
+    simp only [exec, run_append, run]
+  rw [hx] at hB ⊢
+  have hz : rank (run cfg (step cfg (exec cfg h) (.env .die)) h2) = 0 := by omega
+  rcases rank_zero _ hz with h0 | h0
+  · exact h0
+  · exact hB.2.2.2.2.2.2 (Or.inr h0)
+
+/-- non-vacuity: the notification precedes `run()`, the observer's task never ends by itself; the delay expires while
+it runs: the task is killed, the engine stops (and is dead after the monitor's last call) -/
+def cfgKill : Cfg := { cfgFixed with dieAfter := true, prods := [⟨0, true, false⟩], pre := [0] }
+
+example : (exec cfgKill [.env .fin]).started = false ∧ (exec cfgKill [.env .fin]).armed = true ∧
+    (exec cfgKill [.env .fin]).pc.window = false := by decide
+
+example : let h := [Op.env .fin, .eng .hang, .eng .hang, .eng .hang, .eng .hang, .eng .hang, .eng .hang]
+    blocked (exec cfgKill h) = true ∧ (exec cfgKill h).armed = true ∧ (exec cfgKill h).execLog.length = 1 ∧
+    (exec cfgKill (h ++ Op.env .die :: [.eng .hang, .eng .hang])).cancel = true ∧
+    alive (exec cfgKill (h ++ Op.env .die :: [.eng .hang, .eng .hang, .eng .hang, .eng .hang])) = false := by decide
+
+/-! ## Working directories of producers: staged-in inputs are not output -/
+
+open St4sd.RepeatDir
+
+/-- `Job.stageIn()` of a component without copy-out references - whatever it stages by direct references (`direct`),
+by references to other components (`comp`), both or nothing, into whatever directory - leaves NO output: everything
+that is in the directory afterwards is recorded as input. -/
+theorem staged_inputs_are_not_output (direct comp : List File) (d : Dir) :
+    (stageIn direct comp [] d).output = [] := by
+  rw [stageIn_eq]; exact output_updateInputs _
+
+/-- after stage-in a file is output iff the component's task wrote it and it is not one of the staged files -/
+theorem output_iff_written_and_not_staged (direct comp ws : List File) (d : Dir) (g : File) :
+    g ∈ (drun (stageIn direct comp [] d) (writes ws)).output ↔
+      g ∈ ws ∧ g ∉ (stageIn direct comp [] d).files := by
+  rw [mem_output, drun_write_files, drun_write_inputs, stageIn_inputs]
+  constructor
+  · rintro ⟨h1 | h1, h2⟩
+    · exact ⟨h1, h2⟩
+    · exact absurd h1 h2
+  · rintro ⟨h1, h2⟩
+    exact ⟨Or.inl h1, h2⟩
+
+/-- Clause 1 on directories: as long as every directory of some producer `p` of the observer's own stage holds staged
+inputs only (no output), `Engine.canConsume` is false - whatever the other producers have written. -/
+theorem canConsume_false_until_producer_writes (cfg : Cfg) (ds : List (Nat × Dir)) (p : Prod)
+    (hp : p ∈ cfg.prods) (hs : p.same = true) (hd : ∀ x ∈ ds, x.1 = p.id → x.2.output = []) :
+    canConsume cfg (outsOf ds) = false := by
+  cases hc : canConsume cfg (outsOf ds) with
+  | false => rfl
+  | true =>
+    have hm := (canConsume_iff cfg _).mp hc p hp hs
+    simp only [outsOf, List.mem_map, List.mem_filter] at hm
+    obtain ⟨x, ⟨hx, hne⟩, hid⟩ := hm
+    rw [hd x hx hid] at hne
+    exact absurd hne (by decide)
+
+/-- … so a producer that was only staged in (direct references, component references, both, none) and whose task has
+written nothing blocks its observer; the first file it writes that is not a staged one unblocks it -/
+theorem only_staged_producer_blocks_observer (cfg : Cfg) (p : Prod) (hp : p ∈ cfg.prods) (hs : p.same = true)
+    (direct comp : List File) (d : Dir) (others : List (Nat × Dir)) (ho : ∀ x ∈ others, x.1 ≠ p.id) :
+    canConsume cfg (outsOf ((p.id, stageIn direct comp [] d) :: others)) = false := by
+  apply canConsume_false_until_producer_writes cfg _ p hp hs
+  intro x hx hid
+  rcases List.mem_cons.mp hx with h1 | h1
+  · rw [h1]; exact staged_inputs_are_not_output direct comp d
+  · exact absurd hid (ho x h1)
+
+example : (stageIn [1, 2] [3] [] Dir.fresh).files = [3, 2, 1] ∧ (stageIn [1, 2] [3] [] Dir.fresh).output = [] ∧
+    (drun (stageIn [1, 2] [3] [] Dir.fresh) (writes [2, 10])).output = [10] ∧
+    canConsume cfgFixed (outsOf [(0, stageIn [1, 2] [] [] Dir.fresh)]) = false ∧
+    canConsume cfgFixed (outsOf [(0, drun (stageIn [1, 2] [] [] Dir.fresh) (writes [10]))]) = true := by decide
 
 end St4sd.C13
